@@ -162,6 +162,15 @@ func genSCondFor(t *rapid.T, key string, vals []string, minHeight, maxHeight int
 		if len(vals) > 0 && rapid.Bool().Draw(t, "nearheight") {
 			c.Lit = vals[rapid.IntRange(0, len(vals)-1).Draw(t, "hv")]
 		}
+		switch rapid.IntRange(0, 9).Draw(t, "hkind") {
+		case 0: // the same number written as a floating point literal
+			c.Kind, c.Lit = "float", c.Lit+rapid.SampledFrom([]string{".", ".0", ".5"}).Draw(t, "hfrac")
+			if strings.HasPrefix(c.Lit, "0") {
+				c.Kind, c.Lit = "int", "0" // the grammar has no "0.5"
+			}
+		case 1: // a string operand: what it means for a height is not documented, it must not crash the search
+			c.Kind, c.Op = "str", "="
+		}
 		return c
 	}
 	switch rapid.SampledFrom([]string{"eq", "eq", "range", "range", "contains", "exists"}).Draw(t, "shape") {
@@ -354,6 +363,15 @@ func TestTxSearch(t *testing.T) {
 				if rapid.IntRange(0, 5).Draw(t, "failed") == 0 {
 					it.Code = 1
 				}
+				if rapid.IntRange(0, 7).Draw(t, "reservedattr") == 0 {
+					// an application attribute under a key that denotes the tx's own height / hash
+					ev := gevent{Type: "tx", Attrs: []gattr{{Key: "height", Val: fmt.Sprint(rapid.Int64Range(base, H+2).Draw(t, "rh")), Index: true}}}
+					if rapid.IntRange(0, 3).Draw(t, "rhash") == 0 {
+						ev = gevent{Type: "tx", Attrs: []gattr{{Key: "hash", Val: "ABCD", Index: true}}}
+					}
+					it.Events = append(it.Events, ev)
+					lib.Class("TestTxSearch", "tx-with-app-attribute-under-reserved-key")
+				}
 				items = append(items, it)
 			}
 		}
@@ -403,6 +421,10 @@ func TestTxSearch(t *testing.T) {
 				t.Fatalf("Get(hash of tx %d/%d) = %v, %v; want %v", it.Height, it.Index, got, err, results[i])
 			}
 			attrs[i] = searchable(it.Events)
+			// tx.height and tx.hash always denote the transaction's own height and hash ("Tendermint provides a few
+			// predefined keys: tm.event, tx.hash and tx.height"), never what the application put under these names
+			delete(attrs[i], "tx.height")
+			delete(attrs[i], "tx.hash")
 			for k, vs := range attrs[i] {
 				hist[k] = append(hist[k], vs...)
 				hadSlash = hadSlash || strings.Contains(strings.Join(vs, ""), "/")
@@ -453,9 +475,27 @@ func TestTxSearch(t *testing.T) {
 				lib.ExcludedByKnown(knownRangeBounds)
 				continue
 			}
+			if hashPin == "" && rapid.IntRange(0, 19).Draw(t, "hashnum") == 0 {
+				// tx.hash compared with a number: an error or an empty result, never a crash
+				q.Conds = append(q.Conds, gcond{Key: "tx.hash", Op: "=", Kind: "int", Lit: "5"})
+				qstr = q.String()
+				if real, err = query.New(qstr); err != nil {
+					t.Fatalf("query %q does not parse: %v", qstr, err)
+				}
+				res, err := idx.Search(context.Background(), real)
+				if err == nil && len(res) != 0 {
+					t.Fatalf("Search(%s) returned %d txs", qstr, len(res))
+				}
+				lib.Case("TestTxSearch", lib.FP(qstr, fmt.Sprint(items)), true, "op:=", "key:tx.hash", "ill-typed-reserved-operand")
+				continue
+			}
 			res, err := idx.Search(context.Background(), real)
 			if err != nil {
 				t.Fatalf("Search(%s): %v", qstr, err)
+			}
+			if stringHeightOperand(q) {
+				lib.Case("TestTxSearch", lib.FP(qstr, fmt.Sprint(items)), len(q.Conds) >= 2, "ill-typed-reserved-operand")
+				continue
 			}
 			gotSet := map[string]int{}
 			for _, r := range res {
@@ -564,6 +604,17 @@ func sortedKeys(m map[string][]string) []string {
 	return ks
 }
 
+// stringHeightOperand: a height key compared with a string; the search must terminate normally, its result is
+// not asserted.
+func stringHeightOperand(q gquery) bool {
+	for _, c := range q.Conds {
+		if (c.Key == "tx.height" || c.Key == "block.height") && c.Kind == "str" {
+			return true
+		}
+	}
+	return false
+}
+
 func sizeClass(n, total int) string {
 	switch {
 	case n == 0:
@@ -658,6 +709,10 @@ func TestBlockSearch(t *testing.T) {
 			if err != nil {
 				t.Fatalf("Search(%s): %v", qstr, err)
 			}
+			if stringHeightOperand(q) {
+				lib.Case("TestBlockSearch", lib.FP(qstr, fmt.Sprint(items)), len(q.Conds) >= 2, "ill-typed-reserved-operand")
+				continue
+			}
 			got := map[int64]int{}
 			for _, h := range res {
 				got[h]++
@@ -668,8 +723,10 @@ func TestBlockSearch(t *testing.T) {
 			// "block.height = H" present: Search answers from the primary key alone
 			pin := int64(-1)
 			for _, c := range q.Conds {
-				if c.Key == "block.height" && c.Op == "=" && pin < 0 {
-					pin, _ = intOf(c.Lit)
+				if c.Key == "block.height" && c.Op == "=" && pin < 0 && (c.Kind == "int" || c.Kind == "float") {
+					if r := ratOf(c.Lit); r.IsInt() {
+						pin = r.Num().Int64() // "3", "3." and "3.0" name the same height
+					}
 				}
 			}
 			must, either := 0, 0
@@ -716,4 +773,3 @@ func TestBlockSearch(t *testing.T) {
 		}
 	})
 }
-
